@@ -4,6 +4,7 @@ Property theorems only. Model: Rip/Model/Patch.lean, Rip/Model/PatchParse.lean.
 -/
 import Rip.Lemmas.PatchExact
 import Rip.Lemmas.PatchAtomic
+import Rip.Lemmas.PatchText
 namespace Rip.Props.C12
 open Rip.Proto Rip.Patch Rip.Text
 
@@ -87,6 +88,56 @@ theorem hunk_local (lines : List Bytes) (cursor : Nat) (h : Hunk) (hne : h.befor
     have := findFrom_sound _ _ _ _ hp
     simp only [applyHunksLines, Option.some.injEq] at hr
     exact ⟨pos, this.1, this.2.1, hr.symm⟩
+
+/-! ### text updates keep the line-ending style and the trailing newline -/
+
+/-- **A text update preserves the file's line-ending style and trailing newline.** For every original
+text and every list of hunks that applies (result lines `ls`): re-reading the written text gives
+exactly `ls` and the original's trailing-newline flag, so every line break in the output is one the
+writer put there, all in one style; the output ends with a newline iff the original did; and the
+output contains a CRLF pair iff the original did (and at least one terminator was written).
+Hypotheses, all explicit: the lines are what `split_lines` and the patch parser produce (no LF
+inside, no CR at the end — `CleanLine`), the result is not the empty file, and — when the original
+had no final newline — the result does not end in an empty line (a file cannot say "empty last
+line, no newline"). Proofs: Rip/Lemmas/PatchText.lean. -/
+theorem update_preserves_style_and_trailing_newline (original out : Bytes) (hunks : List Hunk)
+    (ls : List Bytes)
+    (h : applyHunks original hunks = some out)
+    (hls : applyHunksLines (splitLines original).1 0 hunks = some ls)
+    (hne : ls ≠ [])
+    (horig : ∀ l ∈ (splitLines original).1, CleanLine l)
+    (hafter : ∀ hk ∈ hunks, ∀ l ∈ hk.after, CleanLine l)
+    (hlast : (splitLines original).2 = true ∨ ls.getLast? ≠ some []) :
+    splitLines out = (ls, (splitLines original).2) ∧
+    ((out.getLast? == some 10) = (original.getLast? == some 10)) ∧
+    hasCrLf out = (hasCrLf original && ((splitLines original).2 || decide (2 ≤ ls.length))) :=
+  applyHunks_preserves original out hunks ls h hls hne horig hafter hlast
+
+/-- Every successful update has this shape (no hypothesis): the hunks are applied to the split
+lines, and the result is joined with the original's trailing flag and terminator. -/
+theorem update_shape (original out : Bytes) (hunks : List Hunk)
+    (h : applyHunks original hunks = some out) :
+    ∃ ls, applyHunksLines (splitLines original).1 0 hunks = some ls ∧
+          out = joinLines ls (splitLines original).2 (leOf original) :=
+  applyHunks_text_shape original out hunks h
+
+/-- **Untouched text is reproduced byte for byte**: on a uniformly terminated text (pure LF with no
+CR anywhere, or pure CRLF with every LF preceded by CR) that does not end in a bare CR, splitting
+and re-joining is the identity. The last hypothesis is sharp: "\r\n\r" loses its final CR
+(`example` in Rip/Lemmas/PatchText.lean; the implementation does the same, which the correspondence
+run confirms — a bare CR at the very end of a text is neither a line-ending style nor a trailing
+newline, so this is recorded as the boundary of the theorem, not as a violation). -/
+theorem untouched_text_identity (text : Bytes) (hne : text ≠ [])
+    (huni : ∀ l ∈ (splitLines text).1, CleanLine l)
+    (hstyle : hasCrLf text = true → ∀ i : Nat, text[i]? = some 10 → 0 < i ∧ text[i-1]? = some 13)
+    (hlf : hasCrLf text = false → 13 ∉ text)
+    (hend : text.getLast? ≠ some 13) :
+    joinLines (splitLines text).1 (splitLines text).2 (leOf text) = text :=
+  joinLines_splitLines text hne huni hstyle hlf hend
+
+/-- non-vacuity: "a\r\nb\r\n", replace "b" by "c","d" -/
+example : applyHunks [97, 13, 10, 98, 13, 10] [⟨[[98]], [[99], [100]]⟩]
+    = some [97, 13, 10, 99, 13, 10, 100, 13, 10] := by decide
 
 /-! ### non-vacuity: the round-0 defect scenario, now restored by the repaired revert -/
 
